@@ -7,6 +7,7 @@ reactor holds at run time are not decided here.
 
 import ast
 
+from ..absint import FALSE, NONE, TOP, TRUE, DefaultDomain, Interp, State, exc, val
 from ..astutil import FUNC_TYPES, attr_chain, dotted, norm, walk_shallow
 from ..cfg import live_nodes, node_calls, node_exprs
 from ..loader import AnalysisError
@@ -46,6 +47,140 @@ def assign_pairs(stmt):
     return out
 
 
+class _LateResultDomain(DefaultDomain):
+    """Spinner callbacks over a DelayedCall typestate: self._timeout_call is pending, called or
+    cancelled; cancel() on a call that is no longer pending raises (twisted.internet.base.DelayedCall:
+    AlreadyCalled / AlreadyCancelled), active() is true only while pending."""
+
+    def __init__(self, classes):
+        self.classes = classes
+
+    def load_attr(self, chain, st, fr):
+        if chain == ["self", "_UNSET"]:
+            return ("const", "UNSET")
+        return None
+
+    def truth(self, value):
+        if value == ("const", "UNSET"):
+            return "T"
+        return super().truth(value)
+
+    def compare(self, op, left, right):
+        unset = ("const", "UNSET")
+        if isinstance(op, (ast.Is, ast.IsNot)) and unset in (left, right):
+            other = right if left == unset else left
+            if isinstance(other, tuple) and other != TOP:
+                same = other == unset
+                return "T" if same == isinstance(op, ast.Is) else "F"
+        return None
+
+    def call(self, interp, call, st, fr):
+        d = dotted(call.func)
+        ch = attr_chain(call.func)
+        tc = st.get("tc", "pending")
+        if d == "self._timeout_call.cancel":
+            if tc == "pending":
+                return [val(NONE, st.set("tc", "cancelled"))]
+            return [exc(("twisted", "AlreadyCalled" if tc == "called" else "AlreadyCancelled"), st)]
+        if d == "self._timeout_call.active":
+            return [val(TRUE if tc == "pending" else FALSE, st)]
+        if d == "TimeoutError":
+            return [val(("timeout-exc",), st)]
+        if d == "Failure":
+            out = []
+            for r in interp.eval_list(list(call.args), st, fr):
+                out.append(r if r.kind == "exc" else val(("timeout",) if r.value and r.value[0] == ("timeout-exc",) else ("failure", "other"), r.state))
+            return out
+        if ch and ch[-1] == "raiseException" and len(ch) == 3 and ch[0] == "self":
+            return [exc(("failure-raised", st.get("self." + ch[1], TOP)), st)]
+        if d == "NoResultError":
+            return [val(("no-result",), st)]
+        if ch and ch[0] == "self" and len(ch) == 2 and fr.receiver is not None:
+            owner, f = self.classes.resolve_method(fr.receiver, ch[1])
+            if isinstance(f, FUNC_TYPES) and owner is not None and not owner.external:
+                params = [p_.arg for p_ in f.args.args][1:]
+                out = []
+                for r in interp.eval_list(list(call.args), st, fr):
+                    if r.kind == "exc":
+                        out.append(r)
+                        continue
+                    out.extend(interp.inline(f, {params[i]: v for i, v in enumerate(r.value) if i < len(params)}, r.state, fr, receiver=fr.receiver))
+                return out
+        out = []
+        for r in interp.eval_list([a for a in call.args if not isinstance(a, ast.Starred)], st, fr):
+            out.append(r if r.kind == "exc" else val(TOP, r.state))
+        return out
+
+    def raised_value(self, stmt, value, st, fr):
+        return value if isinstance(value, tuple) else ("raised", norm(stmt.exc)[:30])
+
+
+def check_timeout_wins(ctx):
+    spinner = ctx.classes.get(SPINNER, "Spinner")
+    dom = _LateResultDomain(ctx.classes)
+
+    def go(name, argvals, st):
+        owner, f = ctx.classes.resolve_method(spinner, name)
+        if not isinstance(f, FUNC_TYPES):
+            raise AnalysisError(f"anchor vanished: Spinner.{name}")
+        it = Interp(dom, max_depth=6)
+        res = it.analyze(f, argvals, st, receiver=spinner, name=name)
+        ctx.stats["states"] += it.steps
+        for fn in it.functions:
+            ctx.analysed(fn)
+        return res
+
+    def keep(st):
+        return State([(k, v) for k, v in st.items if k.startswith("self.") or k == "tc"])
+
+    s0 = State([("tc", "called"), ("self._timeout_call", ("obj", "delayedcall")), ("self._success", ("const", "UNSET")), ("self._failure", ("const", "UNSET")), ("self._spinning", TRUE)])
+    after_timeout = {keep(r.state) for r in go("_timed_out", {"function": TOP, "timeout": TOP}, s0) if r.kind == "val"}
+    ok0 = bool(after_timeout) and all(s.get("self._failure") == ("timeout",) for s in after_timeout)
+    to = own_method(ctx, SPINNER, "Spinner", "_timed_out")
+    ctx.check("R-TIMEOUT-WINS", "_timed_out leaves a TimeoutError failure in self._failure", to, ok0,
+              "after the timeout call has run, self._failure does not hold Failure(TimeoutError(...))", construct=f"{SPINNER}:Spinner._timed_out::stores-timeout")
+    for cb in ("_got_success", "_got_failure"):
+        f = own_method(ctx, SPINNER, "Spinner", cb)
+        param = f.args.args[1].arg
+        finals = []
+        for s1 in after_timeout:
+            for r in go(cb, {param: ("late-result",)}, s1):
+                how = "returns" if r.kind == "val" else f"raises {r.value[1] if isinstance(r.value, tuple) and len(r.value) > 1 else r.value}"
+                for r2 in go("_get_result", {}, keep(r.state)):
+                    finals.append((how, r2))
+        bad = [(how, r2) for how, r2 in finals if not (r2.kind == "exc" and r2.value == ("failure-raised", ("timeout",)))]
+        msg = ""
+        if bad:
+            how, r2 = bad[0]
+            msg = (f"the timeout fires first (the DelayedCall is no longer active), then {cb} runs with the Deferred's late result and {how}; afterwards "
+                   f"_get_result {'returns ' + repr(r2.value) if r2.kind == 'val' else 'raises ' + repr(r2.value)} instead of raising the TimeoutError: "
+                   "a Deferred that had not fired when the timeout elapsed decides what Spinner.run reports")
+        ctx.check("R-TIMEOUT-WINS", f"timeout, then {cb}(late result): _get_result still raises the TimeoutError", f, bool(finals) and not bad, msg or "no path explored",
+                  examined=len(finals), construct=f"{SPINNER}:Spinner.{cb}::late-result")
+    # the ordinary order: the Deferred fires while the timeout call is still pending
+    s_p = State([("tc", "pending"), ("self._timeout_call", ("obj", "delayedcall")), ("self._success", ("const", "UNSET")), ("self._failure", ("const", "UNSET")), ("self._spinning", TRUE)])
+    for cb, want in (("_got_success", ("val", ("result",))), ("_got_failure", ("exc", ("failure-raised", ("result",))))):
+        f = own_method(ctx, SPINNER, "Spinner", cb)
+        param = f.args.args[1].arg
+        outs = go(cb, {param: ("result",)}, s_p)
+        finals = []
+        ok = bool(outs)
+        why = ""
+        for r in outs:
+            if r.kind != "val":
+                ok, why = False, f"{cb} raises {r.value!r} although the timeout call is still pending"
+                continue
+            if r.state.get("tc") != "cancelled":
+                ok, why = False, f"{cb} returns without cancelling the pending timeout call: the timeout would still fire (and crash a later reactor run)"
+            for r2 in go("_get_result", {}, keep(r.state)):
+                finals.append(r2)
+                if (r2.kind, r2.value) != want:
+                    ok, why = False, f"after {cb}(result), _get_result {'returns' if r2.kind == 'val' else 'raises'} {r2.value!r} instead of {'returning the result' if want[0] == 'val' else 'raising the failure'}"
+        ctx.check("R-CALLBACK-SIBLINGS", f"{cb}(result) while the timeout is pending: cancels it; _get_result then {'returns the result' if want[0] == 'val' else 'raises the failure'}", f, ok and bool(finals), why or "no path explored",
+                  examined=len(finals), construct=f"{SPINNER}:Spinner.{cb}::in-time")
+    ctx.assume("twisted DelayedCall.cancel() raises AlreadyCalled / AlreadyCancelled unless the call is still pending; active() is true only while pending")
+
+
 def run(ctx):
     ctx.rule("R-RESTORE-STOP", "reactor.stop is re-installed on every path after it was replaced")
     ctx.rule("R-RESTORE-SIGNALS", "signal handlers saved before and restored on every path out of reactor.run()")
@@ -55,6 +190,7 @@ def run(ctx):
     ctx.rule("R-RESULT-3WAY", "_get_result: failure -> raise, success -> return it, neither -> NoResultError")
     ctx.rule("R-CALLBACK-SIBLINGS", "result callbacks cancel the timeout and store into distinct fields; timeout stores TimeoutError and stops")
     ctx.rule("R-RESULT-RESET", "result fields read by _get_result are reset before the reactor is run")
+    ctx.rule("R-TIMEOUT-WINS", "once the timeout has fired, a result arriving later cannot replace the TimeoutError")
 
     spinner = ctx.classes.get(SPINNER, "Spinner")
     run_f = own_method(ctx, SPINNER, "Spinner", "run")
@@ -307,14 +443,7 @@ def run(ctx):
         st = [n for n in walk_shallow(f) if isinstance(n, ast.Assign) and any(dotted(t) == f"self.{fld}" for t in n.targets) and dotted(n.value) == param]
         others = [n for n in walk_shallow(f) if isinstance(n, ast.Assign) and any((dotted(t) or "").startswith("self._") and dotted(t) not in (f"self.{fld}",) and dotted(t) in ("self._success", "self._failure") for t in n.targets)]
         stored[name] = fld
-        ctx.check("R-CALLBACK-SIBLINGS", f"{name} cancels the timeout and stores its argument in self.{fld}", f,
-                  bool(cancels) and len(st) == 1 and not others,
-                  f"{name} must call _cancel_timeout() and store its argument in self.{fld} only",
-                  construct=f"{SPINNER}:Spinner.{name}::shape")
-    ct = own_method(ctx, SPINNER, "Spinner", "_cancel_timeout")
-    ok = any(isinstance(c, ast.Call) and dotted(c.func) == "self._timeout_call.cancel" for c in ast.walk(ct))
-    ctx.check("R-CALLBACK-SIBLINGS", "_cancel_timeout cancels the pending timeout call", ct, ok, "_cancel_timeout no longer cancels self._timeout_call",
-              construct=f"{SPINNER}:Spinner._cancel_timeout::cancel")
+        # (what the callbacks do is decided on their abstract run, see check_timeout_wins)
     to = own_method(ctx, SPINNER, "Spinner", "_timed_out")
     ctx.analysed(to)
     fail_store = [n for n in walk_shallow(to) if isinstance(n, ast.Assign) and any(dotted(t) == "self._failure" for t in n.targets)]
@@ -429,3 +558,4 @@ def run(ctx):
               "Spinner.run lost its @not_reentrant decorator", construct=f"{Q}::decorator")
     ctx.assume("reactor.crash() stops a running reactor; signal.signal/getsignal behave as documented")
     ctx.assume("attribute stores on self._reactor do not raise")
+    check_timeout_wins(ctx)
